@@ -13,14 +13,14 @@ Local Open Scope Z_scope.
 Definition lit_const : list Z := [99; 111; 110; 115; 116].
 Definition lit_true : list Z := [116; 114; 117; 101].
 Definition lit_false : list Z := [102; 97; 108; 115; 101].
-Definition str_body (q : Z) : cexpr action := CStar (CChoice [CLit [92; q]; CClass [q] [] true]).
+Definition str_body (q : Z) : cexpr action := CStar (CChoice [CLit [92; 92]; CLit [92; q]; CClass [q] [] true]).
 
 Lemma const_shapes :
   nth_error rules 6 = Some (CAct AConst1 (CSeq [CLit lit_const; CRef 56; CLabel "typ" (CRef 22); CRef 56;
                                                 CLabel "name" (CRef 45); CRef 56; CLit [61]; CRef 56;
                                                 CLabel "value" (CRef 30); CRef 56; anns_opt; CRef 60]))
   /\ nth_error rules 30 = Some (CChoice [CRef 44; CRef 33; CRef 35; CRef 34; CRef 37; CRef 36; CRef 45])
-  /\ nth_error rules 33 = Some (CAct ABoolConstant1 (CChoice [CLit lit_true; CLit lit_false]))
+  /\ nth_error rules 33 = Some (CAct ABoolConstant1 (CSeq [CChoice [CLit lit_true; CLit lit_false]; kw_guard]))
   /\ nth_error rules 35 = Some (CAct ADoubleConstant1
                                   (CSeq [COpt (CClass [43; 45] [] false); CStar (CRef 48); CLit [46]; CStar (CRef 48);
                                          COpt (CSeq [CClass [39; 69; 101; 39] [] false; CRef 34])]))
@@ -45,10 +45,12 @@ Lemma bool_constant_fails : forall cr s o es fr,
 Proof.
   intros cr s o es fr Hs. destruct const_shapes as (_ & _ & H33 & _).
   assert (H116 : head_not [116] s) by sub_head Hs. assert (H102 : head_not [102] s) by sub_head Hs.
-  eapply E_ref; [exact H33|]. apply E_act_fail. apply E_choice.
-  eapply C_next; [exact (lit_fails 116 [114; 117; 101] 33 s o es [] ltac:(all_ascii) H116)|].
-  eapply C_next; [exact (lit_fails 102 [97; 108; 115; 101] 33 s o es [] ltac:(all_ascii) H102)|].
-  apply C_nil.
+  assert (Hch : evals (CChoice [CLit lit_true; CLit lit_false]) 33 (st_of s o es) [] (Done false VNil (st_of s o es) [])).
+  { apply E_choice.
+    eapply C_next; [exact (lit_fails 116 [114; 117; 101] 33 s o es [] ltac:(all_ascii) H116)|].
+    eapply C_next; [exact (lit_fails 102 [97; 108; 115; 101] 33 s o es [] ltac:(all_ascii) H102)|].
+    apply C_nil. }
+  eapply E_ref; [exact H33|]. apply E_act_fail. apply E_seq. exact (S_fail 33 _ _ _ _ _ _ _ _ _ Hch).
 Qed.
 
 (** the decimal spelling of a 64-bit integer: an optional '-' and a non-empty run of digits *)
@@ -161,12 +163,14 @@ Qed.
 
 Lemma str_loop : forall content t o es fr acc,
   run_of p_strch content -> ascii_next t ->
-  loops (CChoice [CLit [92; 34]; CClass [34] [] true]) 44 (st_of (content ++ 34 :: t) o es) fr acc
+  loops (CChoice [CLit [92; 92]; CLit [92; 34]; CClass [34] [] true]) 44 (st_of (content ++ 34 :: t) o es) fr acc
         (Done true (VList (rev acc ++ bytes_vals content)) (st_of (34 :: t) (o + Z.of_nat (List.length content)) es) fr).
 Proof.
   induction content as [|c content IH]; intros t o es fr acc Hrun Ht.
   - cbn [app List.length bytes_vals map]. replace (o + Z.of_nat 0) with o by lia. rewrite app_nil_r.
     eapply L_stop. apply E_choice.
+    eapply C_next; [refine (lit_fails 92 [92] 44 (34 :: t) o es [] ltac:(all_ascii) _);
+                    split; [unfold ascii; lia | repeat constructor; lia]|].
     eapply C_next; [refine (lit_fails 92 [34] 44 (34 :: t) o es [] ltac:(all_ascii) _);
                     split; [unfold ascii; lia | repeat constructor; lia]|].
     eapply C_next; [exact (class_inv_fail 34 t 44 o es [] ltac:(unfold ascii; lia))|].
@@ -177,6 +181,8 @@ Proof.
       inversion Hrun' as [|? ? [Hc2 _] _]; subst. exact Hc2. }
     eapply L_step.
     + apply E_choice.
+      eapply C_next; [refine (lit_fails 92 [92] 44 (c :: content ++ 34 :: t) o es [] ltac:(all_ascii) _);
+                      split; [exact Hc | repeat constructor; congruence]|].
       eapply C_next; [refine (lit_fails 92 [34] 44 (c :: content ++ 34 :: t) o es [] ltac:(all_ascii) _);
                       split; [exact Hc | repeat constructor; congruence]|].
       eapply C_ok. exact (class_inv_ok 34 c (content ++ 34 :: t) 44 o es [] Hc H34 Hn).
@@ -210,6 +216,26 @@ Proof.
   rewrite (ascii_not_error c Hc). cbn [andb]. rewrite skip_width_1. exact (IH t Ht).
 Qed.
 
+(** unquoteLiteral's normalisation leaves a plain string alone *)
+Lemma norm_lit_plain : forall content,
+  Forall (fun c => c <> 92) content -> Forall (fun c => c <> 34) content -> norm_lit content = content.
+Proof.
+  induction content as [|a r IH]; intros H92 H34; [reflexivity|].
+  inversion H92 as [|? ? Ha92 Hr92]; inversion H34 as [|? ? Ha34 Hr34]; subst. cbn [norm_lit].
+  destruct (Z.eqb_spec a 92); [congruence|]. destruct (Z.eqb_spec a 34); [congruence|]. rewrite (IH Hr92 Hr34). reflexivity.
+Qed.
+
+Lemma literal_value_quoted : forall q1 content q2,
+  literal_value (q1 :: content ++ [q2]) = unquote ([34] ++ norm_lit content ++ [34]).
+Proof.
+  intros q1 content q2.
+  assert (Hin : firstn (List.length (q1 :: content ++ [q2]) - 2) (skipn 1 (q1 :: content ++ [q2])) = content).
+  { cbn [List.length skipn]. rewrite app_length. cbn [List.length].
+    replace (S (List.length content + 1) - 2)%nat with (List.length content) by lia.
+    rewrite firstn_app, Nat.sub_diag, firstn_all. cbn [firstn]. apply app_nil_r. }
+  unfold literal_value. destruct content as [|c r]; cbn [app] in *; cbv beta iota zeta; rewrite Hin; reflexivity.
+Qed.
+
 Lemma literal_value_plain : forall content, run_of p_strch content ->
   literal_value (34 :: content ++ [34]) = Some content.
 Proof.
@@ -221,7 +247,8 @@ Proof.
   assert (H10 : Forall (fun c => c <> 10) content).
   { eapply Forall_impl; [|exact Hrun]. intros c [_ Hp]. exact (proj2 (proj2 (p_strch_ne c Hp))). }
   assert (Hasc : Forall ascii content) by (eapply Forall_impl; [|exact Hrun]; intros c [Hc _]; exact Hc).
-  unfold literal_value, unquote. rewrite (index_byte_plain content [] 0 H34). cbn [plus].
+  rewrite literal_value_quoted, (norm_lit_plain content H92 H34). cbn [app].
+  unfold unquote. rewrite (index_byte_plain content [] 0 H34). cbn [plus].
   rewrite firstn_app, Nat.sub_diag, firstn_all. cbn [firstn]. rewrite app_nil_r.
   rewrite (contains_byte_none 92 content H92), (contains_byte_none 10 content H10).
   unfold valid_utf8. rewrite (valid_utf8_ascii _ content Hasc). cbn [negb andb].
@@ -299,7 +326,7 @@ Qed.
 Record cn_spec := mk_cn { cn_g1 : bytes; cn_ty : ty_spec; cn_c : Z; cn_t : bytes; cn_g2 : bytes; cn_g3 : bytes;
                           cn_v : cv_spec; cn_g4 : bytes; cn_w : bytes }.
 Definition cn_ok (d : cn_spec) : Prop :=
-  run_of p_blank (cn_g1 d) /\ ty_ok (cn_ty d) /\ ascii (cn_c d) /\ p_start (cn_c d) = true /\ run_of p_cont (cn_t d)
+  run_of p_blank (cn_g1 d) /\ (ty_ok (cn_ty d) /\ ty_tight (cn_ty d)) /\ ascii (cn_c d) /\ p_start (cn_c d) = true /\ run_of p_cont (cn_t d)
   /\ run_of p_blank (cn_g2 d) /\ run_of p_blank (cn_g3 d) /\ cv_ok (cn_v d) /\ run_of p_blank (cn_g4 d)
   /\ run_of p_wsnl (cn_w d).
 Definition render_cn (d : cn_spec) (more : bytes) : bytes :=
@@ -314,7 +341,7 @@ Lemma const_rule : forall d more cr o es fr,
   exists o', evals (CRef 6) cr (st_of (render_cn d more) o es) fr
                    (Done true (VConst (const_of d)) (st_of (cn_w d ++ more) o' es) fr).
 Proof.
-  intros [g1 ty c t g2 g3 v g4 w] more cr o es fr (Hg1 & Hty & Hc & Hp & Ht & Hg2 & Hg3 & Hv & Hg4 & Hw) Hm.
+  intros [g1 ty c t g2 g3 v g4 w] more cr o es fr (Hg1 & [Hty Htight] & Hc & Hp & Ht & Hg2 & Hg3 & Hv & Hg4 & Hw) Hm.
   unfold render_cn, const_of. cbn [cn_g1 cn_ty cn_c cn_t cn_g2 cn_g3 cn_v cn_g4 cn_w] in *.
   destruct const_shapes as (H6 & _).
   set (tail := g4 ++ 10 :: w ++ more).
@@ -328,7 +355,7 @@ Proof.
   assert (Hstop : stops p_cont eqd).
   { unfold eqd. apply blank_led_stops; [exact Hg2 | exact blank_not_cont | split; assumption]. }
   destruct (field_type_rule ty Hty named 6%nat (o + Z.of_nat (List.length lit_const) + Z.of_nat (List.length g1)) es []
-                            Hnamed) as [o1 Htyr].
+                            Hnamed (ty_tight_sep ty named Hty Htight)) as [o1 Htyr].
   destruct (const_value_rule v g4 (w ++ more) 6
               (o1 + Z.of_nat (@List.length Z []) + Z.of_nat (List.length (c :: t)) + Z.of_nat (List.length g2) + 1
                + Z.of_nat (List.length g3)) es [] Hv Hg4) as [o2 Hval].
